@@ -206,3 +206,13 @@ def Value.equal (a b : Value) : Bool :=
 abbrev cmpRaw : Value → Value → Int := cmpWith cmpFloatRaw
 abbrev hashRaw : UInt64 → Value → UInt64 := hashWith hashBitsRaw false
 end Octo
+
+namespace Octo
+/-- `execution.CompareValueSlices` (`GroupKey.Less`, and the same loop in `orderByItem.Less` / `outputItem.Less`):
+    the first differing position decides by `comp == -1`; a proper prefix sorts first. -/
+def lessRows : List Value → List Value → Bool
+  | [], [] => false
+  | [], _ :: _ => true
+  | _ :: _, [] => false
+  | x :: xs, y :: ys => let c := cmp x y; if c != 0 then c == -1 else lessRows xs ys
+end Octo
